@@ -34,6 +34,7 @@ ASSUMPTIONS = [
 RULE = ('random bodies over {a,b,c,\\n} (len 0..20) x Content-Length in {absent, exact, shorter, longer, 0} x short-read oracles / '
         'ASGI event shapes (missing body/more_body keys, empty and oversized chunks, disconnect anywhere) x histories of 1..7 operations; '
         'a third of the cases go through falcon.Request.bounded_stream / falcon.asgi.Request.stream; '
+        'every byte string handed out (read/readline/next results, readlines items and the list, ASGI read/readall results and iteration chunks) must be exactly a bytes (type(x) is bytes, not ==); '
         'plus, for the WSGI stream, ALL histories of length <= 3 (quick) / <= 4 (thorough) over a 7-operation alphabet on 18 (body, Content-Length, short-read) combinations; non-trivial = at least one operation returned data; distinct = distinct (stream kind, construction line, op list)')
 PARTIAL = ''
 JOBS = {'quick': 4, 'thorough': 16}
@@ -112,7 +113,7 @@ def _wsgi(ctx):
             return f" rem={s._bytes_remaining} eof={'true' if s.eof else 'false'} asked={raw.asked}"
         failed = None
         for op, n in ops:
-            hist.append([op, n])
+            hist.append([op, n]); d = None
             try:
                 with alarm(3):
                     if op == 'read':
@@ -142,6 +143,10 @@ def _wsgi(ctx):
                 failed = f'{op} raised {type(e).__name__}: {e}'
             nontriv = nontriv or bool(got)
             ctx.count('wsgi_op_' + op)
+            if failed is None and d is not None:
+                # second-order observation: what the stream hands out is exactly a bytes (a list of bytes for readlines) - `bytearray(b'a') == b'a'` is True
+                bad = [type(x).__name__ for x in (d if op == 'readlines' else [d]) if type(x) is not bytes]
+                if bad or (op == 'readlines' and type(d) is not list): failed = f'{op} returned {type(d).__name__}' + (f' of {bad}' if op == 'readlines' else '') + ', not bytes' + (' in a list' if op == 'readlines' else '')
             if failed is None:
                 if not decl.startswith(got): failed = 'returned bytes are not a prefix of body[:Content-Length]'
                 elif raw.maxpos > cl: failed = f'raw stream consumed to {raw.maxpos} > Content-Length {cl}'
@@ -295,24 +300,28 @@ def _asgi(ctx):
                     line = f"read {'none' if n is None else n}"
                     d = await s.read(n); sess.op(line, 'data ' + hx(d) + st())
                     if n is not None and n >= 0 and len(d) > n: failed = f'read({n}) returned {len(d)} bytes'
+                    if type(d) is not bytes: failed = f'read({n}) returned a {type(d).__name__}, not a bytes'
                     out += d
                 elif op == 'readall':
                     hist.append(['readall']); line = 'readall'
                     d = await s.readall(); sess.op(line, 'data ' + hx(d) + st()); out += d
+                    if type(d) is not bytes: failed = f'readall() returned a {type(d).__name__}, not a bytes'
                 elif op == 'iter':
-                    k = rnd.randint(1, 3); hist.append(['iter', k]); line = f'iter {k}'; acc = b''
+                    k = rnd.randint(1, 3); hist.append(['iter', k]); line = f'iter {k}'; acc = b''; chunk_types = []
 
                     async def it():
                         nonlocal acc
                         c = 0
                         async for ch in s:
                             acc += ch; c += 1
+                            if type(ch) is not bytes: chunk_types.append(type(ch).__name__)
                             if c >= k: break
                     try:
                         await it()
                     finally:
                         out += acc
                     sess.op(line, 'data ' + hx(acc) + st())
+                    if chunk_types: failed = f'the iteration yielded {chunk_types}, not bytes'
                 elif op == 'exhaust':
                     hist.append(['exhaust']); line = 'exhaust'
                     await s.exhaust(); sess.op(line, 'unit' + st()); exhausted = True
